@@ -19,6 +19,7 @@ import (
 	"mcverif/props/c14"
 	"mcverif/props/c15"
 	"mcverif/props/c16"
+	"mcverif/props/c17"
 	"mcverif/props/c18"
 	"mcverif/props/store"
 )
@@ -40,6 +41,7 @@ var Registry = map[string]engine.Spec{
 	"C14": c14.Spec,
 	"C15": c15.Spec,
 	"C16": c16.Spec,
+	"C17": c17.Spec,
 	"C18": c18.Spec,
 	"C19": store.SpecC19,
 	"C20": store.SpecC20,
@@ -50,4 +52,6 @@ var Aux = map[string]func(args []string) int{
 	"c07ref":   c07.Aux,
 	"c04probe": c04.Aux,
 	"c18hist":  c18.Aux,
+	"c17race":  c17.Aux,
+	"c11race":  c11.Aux,
 }
